@@ -90,6 +90,16 @@ def opTopo (args : List String) : String :=
           else "\"bad-query\""
         "{\"status\":\"ok\"," ++ s!"\"tags\":{jList (tags.map toString)},\"order\":{jList (order.map fun x => toString x.2)}," ++
           s!"\"objs\":{jList objs},\"pulses\":{jList (st.pulses.map jPulse)},\"answers\":{jList answers}" ++ "}"
+  | "minseg" :: nobj :: rest =>
+    -- nobj, then per object: count, lengths…  →  bit pattern of the shortest segment
+    let rec go : Nat → List String → List (List Float)
+      | 0, _ => []
+      | n + 1, c :: r =>
+        let k := parseN c
+        (r.take k).map parseF :: go n (r.drop k)
+      | _, _ => []
+    let objs := go (parseN nobj) rest
+    toString (minSegLen (0.0 : Float) objs).toBits
   | _ => "bad-op"
 
 end Driver
